@@ -41,7 +41,7 @@ def col_rec(c):
             "cands": [str(x) for x in c.parent_candidates], "key": "%s@%s" % (c, _okey(p)), "oclass": _oclass(p)}
 
 
-def served_exports(sql, dialect, provider):
+def served_exports(sql, dialect, provider, warm=None):
     """the exports as the web application serves them: POST /lineage on the real WSGI app"""
     import io
     import json as _json
@@ -50,6 +50,14 @@ def served_exports(sql, dialect, provider):
     saved = getattr(app, "metadata_provider", None)
     app.metadata_provider = provider
     try:
+        if warm:
+            # the same text asked under another dialect first (what the dialect menu of the page does)
+            b0 = _json.dumps({"e": sql, "dialect": warm})
+            try:
+                list(app({"REQUEST_METHOD": "POST", "PATH_INFO": "/lineage", "CONTENT_LENGTH": len(b0), "wsgi.input": io.StringIO(b0)},
+                         lambda status, headers: None))
+            except Exception:  # noqa
+                pass
         body = _json.dumps({"e": sql, "dialect": dialect})
         holder = {}
         out = app({"REQUEST_METHOD": "POST", "PATH_INFO": "/lineage", "CONTENT_LENGTH": len(body), "wsgi.input": io.StringIO(body)},
@@ -63,7 +71,7 @@ def served_exports(sql, dialect, provider):
         app.metadata_provider = saved
 
 
-def dump(sql, dialect="ansi", metadata=None, silent=False, verbose=False, want_graph=True, provider=None, pre_calls=(), served=False):
+def dump(sql, dialect="ansi", metadata=None, silent=False, verbose=False, want_graph=True, provider=None, pre_calls=(), served=False, warm=None):
     """metadata: dict 'schema.table' -> [cols] (DummyMetaDataProvider) or None"""
     from sqllineage.core.metadata.dummy import DummyMetaDataProvider
     from sqllineage.core.models import Column, Path, SubQuery, Table
@@ -100,7 +108,7 @@ def dump(sql, dialect="ansi", metadata=None, silent=False, verbose=False, want_g
             if served:
                 # what a client of the web application gets for the same text (an equal provider of its own)
                 from sqllineage.core.metadata.dummy import DummyMetaDataProvider as _D
-                out["cyto_table"], out["cyto_column"] = served_exports(sql, dialect, _D(metadata) if metadata is not None else _D())
+                out["cyto_table"], out["cyto_column"] = served_exports(sql, dialect, _D(metadata) if metadata is not None else _D(), warm)
             out["summary"] = str(lr)
             if want_graph:
                 h = getattr(lr, "_sql_holder", None)
